@@ -187,6 +187,29 @@ def vary_nested(rng, msg):
     return msg
 
 
+def with_unknown_enums(msg):
+    """Every enum field of the message - and of the elements of its nested lists, at least one element each - carries a number the
+    wire enum does not define (a device newer than the client): unknown numbers become None / are dropped, and stay so through to_dict / from_dict."""
+    import aioesphomeapi.api_pb2 as pb
+    for fd in type(msg).DESCRIPTOR.fields:
+        if fd.type == 14:
+            top = max(v.number for v in fd.enum_type.values)
+            if fd.is_repeated:
+                getattr(msg, fd.name).extend([top + 1, fd.enum_type.values[0].number, top + 9])
+            else:
+                setattr(msg, fd.name, top + 3)
+        elif fd.type == 11 and fd.is_repeated:
+            sub = getattr(pb, fd.message_type.name, None)
+            if sub is None:
+                continue
+            lst = getattr(msg, fd.name)
+            if not len(lst):
+                lst.append(sub())
+            for e in lst:
+                with_unknown_enums(e)
+    return msg
+
+
 KIND = {"KNone": "n", "KEnum": "e", "KEnumList": "l", "KFloatFix": "f", "KListCopy": "c", "KNestedList": "x"}
 
 
@@ -458,6 +481,8 @@ def run(rep, tier, seed):
             msg = fill_message(rng, pbcls) if i else pbcls()
             if i in (1, 2):
                 msg = vary_nested(rng, msg)
+            if i == 3:
+                msg = with_unknown_enums(msg)
             replay = {"kind": "impl-case", "class": mn, "message": pbn, "serialized": msg.SerializeToString().hex()}
             try:
                 obj = mocls.from_pb(msg)
